@@ -30,7 +30,7 @@ def own_detect(d):
         out[P] = {'exit': '1' if nv else ('2' if 'HARNESS FAULT' in txt else '0'), 'classes': cls}
     return out
 
-for d in sorted(glob.glob(SRC + '/C??/[0-9]')) + sorted(glob.glob('/tmp/mut2/C??/[0-9]')) + sorted(glob.glob('/tmp/mut3/C??/[0-9]')) + sorted(glob.glob('/tmp/mut4/C??/[0-9]')) + sorted(glob.glob('/tmp/mut5/C??/[0-9]')) + sorted(glob.glob('/tmp/mut6/C??/[0-9]')) + sorted(glob.glob('/tmp/mut7/C??/[0-9]')) + sorted(glob.glob('/tmp/mut8/C??/[0-9]')) + sorted(glob.glob('/tmp/mut9/C??/[0-9]')) + sorted(glob.glob('/tmp/mut10/C??/[0-9]')):
+for d in sorted(glob.glob(SRC + '/C??/[0-9]')) + sorted(glob.glob('/tmp/mut2/C??/[0-9]')) + sorted(glob.glob('/tmp/mut3/C??/[0-9]')) + sorted(glob.glob('/tmp/mut4/C??/[0-9]')) + sorted(glob.glob('/tmp/mut5/C??/[0-9]')) + sorted(glob.glob('/tmp/mut6/C??/[0-9]')) + sorted(glob.glob('/tmp/mut7/C??/[0-9]')) + sorted(glob.glob('/tmp/mut8/C??/[0-9]')) + sorted(glob.glob('/tmp/mut9/C??/[0-9]')) + sorted(glob.glob('/tmp/mut10/C??/[0-9]')) + sorted(glob.glob('/tmp/mut11/C??/[0-9]')):
     prop = os.path.basename(os.path.dirname(d)); n = os.path.basename(d)
     mid = '%s-%s' % (prop, n) if d.startswith(SRC + '/') else '%s-r%s-%s' % (prop, re.match(r'/tmp/mut(\d+)/', d).group(1), n)
     out = os.path.join(DST, mid)
